@@ -787,7 +787,7 @@ def execute_all(pool, rng: random.Random, tier: str, n: int):
     pairs = []
     drawn = 0
     for _round in range(5):  # configurations whose golden generation raises a documented error are redrawn
-        need = n - sum(1 for r in probes if isinstance(r, dict) and r.get("layout"))
+        need = n - sum(1 for (_R, _k), r in zip(cfgs, probes) if isinstance(r, dict) and r.get("layout") and not _k.get("only"))
         if need <= 0:
             break
         batch = []
@@ -803,6 +803,14 @@ def execute_all(pool, rng: random.Random, tier: str, n: int):
             if i % 3 == 2:  # every third configuration selects the minimal format through a lowered threshold
                 knobs["threshold"] = rng.choice([1, 2, R["n_mazes"]])
             batch.append((R, knobs))
+        if drawn >= n and not any(k.get("only") for _, k in cfgs + batch):
+            # one extra configuration with a four-digit maze count: the cache file name abbreviates such counts ("n1.0K" for
+            # 1000 and for 1024), so the configuration hash is all that separates neighbours; only the shared-directory
+            # scenario is run for it (everything else would regenerate 1000 mazes per scenario)
+            Rb = {"name": "big", "grid_n": 2, "n_mazes": 1000, "maze_ctor": "gen_dfs", "maze_ctor_kwargs": {}, "endpoint_kwargs": {}, "seed": rng.randrange(1000), "applied_filters": []}
+            kb = rand_knobs(rng, 1000)
+            kb.update(threshold=100, only="big-count", request={})
+            batch.append((Rb, kb))
         res = pool.run([{"prop": PROP, "tier": tier, "timeout": JOB_TIMEOUT, "spec": {"probe": {"cfg": R, "knobs": k}}} for R, k in batch])
         cfgs += batch
         probes += res
@@ -813,6 +821,10 @@ def execute_all(pool, rng: random.Random, tier: str, n: int):
         if not isinstance(r, dict) or r.get("status") != "ok" or not r.get("layout"):
             continue
         layouts.append({"cfg": R, "knobs": k, "size": r["layout"]["size"], "n_writes": len(r["layout"]["write_lens"]), "minimal_format": r["layout"]["format_minimal"], "control": r["layout"]["control"]})
+        if k.get("only") == "big-count":
+            for sp in (False, True):
+                specs.append({"cfg": R, "knobs": k, "scenarios": [{"kind": "shared-dir", "field": "n_mazes-same-abbreviation", "cfg": dict(R, n_mazes=1024), "same_process": sp}]})
+            continue
         for sc in scenarios_for(rng, R, r["layout"], tier):
             specs.append({"cfg": R, "knobs": k, "scenarios": [sc]})
     ch = CHUNK[tier]
